@@ -15,9 +15,13 @@
   OBLIGATION c30_lifecycle_family
   OBLIGATION c30_passthrough_needed
   OBLIGATION c30_fast_unknown_field_witness
-  OPEN c30_resolve_once_per_invocation
+  OBLIGATION c30_resolve_once_per_invocation
+  OBLIGATION c30_sites_balanced_exec
+  OBLIGATION c30_sites_balanced
+  OBLIGATION c30_resolve_once_family
 -/
 import AGV.Lemmas.ExtPipeline
+import AGV.Lemmas.ExtSites
 
 namespace AGV.Props.C30
 open AGV.Core AGV.Model.Ext AGV.Lemmas.Ext
@@ -239,15 +243,189 @@ theorem c30_lifecycle_family (D : AGV.Model.ExecStatic.Defects) (X : XDefects) (
 
 example : [0, 1, 2].count 1 = 1 := by decide
 
-/-- OPEN: in the family's executor every field site contains exactly one resolver invocation and
-    vice versa (number of opened field sites = length of the invocation log), and the markers are
-    well bracketed.  Checked on every case by the judge (`lifecycleOK`, `nestedOK`). -/
-def c30_resolve_once_per_invocation : Prop :=
+/-- the executor of the family run without extensions: `Once` -/
+theorem family_once (D : AGV.Model.ExecStatic.Defects) (X : XDefects) (req : CaseReq) (doc : Doc) (op : OpDef) (vr : Cache) :
+    Bal ((caseBase D X).exec (resolveAt ([] : List (Ext CaseReq Doc Cache Resp Stage))) false req doc op vr).2 ∧
+    fieldOpens ((caseBase D X).exec (resolveAt ([] : List (Ext CaseReq Doc Cache Resp Stage))) false req doc op vr).2 =
+      ((caseBase D X).exec (resolveAt ([] : List (Ext CaseReq Doc Cache Resp Stage))) false req doc op vr).1.res.log.length :=
+  runOp_once D X false _ resolveAt_nil_siteHook req.S doc op req.vars req.w req.fuel
+
+/-- ONE FIELD SITE PER RESOLVER INVOCATION (was OPEN): in the family's executor (`runOp`,
+    `resolveContainerX`, `runFieldX`, `resolveValueX`) run without extensions, the number of opened
+    field sites (resolve sites whose path ends in a key) equals the number of resolver invocations
+    in the log of the result — every field future that reaches a resolver does so inside exactly
+    one site, list items open item sites only, `__typename`/unknown fields open none.
+    (`Lemmas.ExtSites.Once`, by induction on the fuel and on the `TypeRef`.) -/
+theorem c30_resolve_once_per_invocation :
   ∀ (D : AGV.Model.ExecStatic.Defects) (X : XDefects) (req : CaseReq) (doc : Doc) (op : OpDef) (vr : Cache),
     let r := (caseBase D X).exec (resolveAt ([] : List (Ext CaseReq Doc Cache Resp Stage))) false req doc op vr
     (r.2.filter (fun e => match e with
       | .mark true s => s.hook = .resolve && (match s.path.getLast? with | some (.key _) => true | _ => false)
-      | _ => false)).length = r.1.res.log.length
+      | _ => false)).length = r.1.res.log.length := by
+  intro D X req doc op vr
+  have h := (family_once D X req doc op vr).2
+  have e : (fun e : Ev => match e with
+      | .mark true s => decide (s.hook = .resolve) && (match s.path.getLast? with | some (.key _) => true | _ => false)
+      | _ => false) = isFieldOpen := by
+    funext e
+    cases e with
+    | mark b s => cases b <;> rfl
+    | hook b i s => rfl
+  simp only [e]
+  exact h
+
+/-- BALANCE: the site markers of the family's executor are well bracketed -/
+theorem c30_sites_balanced_exec (D : AGV.Model.ExecStatic.Defects) (X : XDefects) (req : CaseReq) (doc : Doc) (op : OpDef) (vr : Cache) :
+    balanced [] ((caseBase D X).exec (resolveAt ([] : List (Ext CaseReq Doc Cache Resp Stage))) false req doc op vr).2 = true :=
+  (family_once D X req doc op vr).1.balanced
+
+/-- the events recorded by extensions are transparent for bracketing -/
+theorem balanced_hooks (a : List Ev) (ha : ∀ e ∈ a, ∃ en i s, e = Ev.hook en i s) (st : List Site) (r : List Ev) :
+    balanced st (a ++ r) = balanced st r := by
+  induction a with
+  | nil => rfl
+  | cons e a ih =>
+    obtain ⟨en, i, s, rfl⟩ := ha e List.mem_cons_self
+    simp only [List.cons_append, balanced]
+    exact ih (fun e' he' => ha e' (List.mem_cons_of_mem _ he'))
+
+/-- … so a stack of recording extensions does not change whether a trace is well bracketed -/
+theorem balanced_expand (ls : List Nat) (t : List Ev) : ∀ st, balanced st (expand ls t) = balanced st t := by
+  induction t with
+  | nil => intro st; rfl
+  | cons e t ih =>
+    intro st
+    rw [expand_cons]
+    cases e with
+    | hook en i s => simp only [expandEv, List.cons_append, List.nil_append, balanced, ih]
+    | mark b s =>
+      cases b with
+      | true =>
+        simp only [expandEv, List.cons_append, balanced]
+        rw [balanced_hooks _ (by intro e he; obtain ⟨j, _, rfl⟩ := List.mem_map.mp he; exact ⟨_, _, _, rfl⟩), ih]
+      | false =>
+        simp only [expandEv, List.append_assoc]
+        rw [balanced_hooks _ (by intro e he; obtain ⟨j, _, rfl⟩ := List.mem_map.mp he; exact ⟨_, _, _, rfl⟩)]
+        cases st <;> simp [balanced, ih]
+
+/-- extension `i` enters a field site -/
+def isFieldEnter (i : Nat) : Ev → Bool
+  | .hook true j s => j == i && isFieldSite s
+  | _ => false
+
+/-- the number of field sites extension `i` enters -/
+def fieldEnters (i : Nat) (t : List Ev) : Nat := (t.filter (isFieldEnter i)).length
+
+theorem fieldEnters_append (i : Nat) (a b : List Ev) : fieldEnters i (a ++ b) = fieldEnters i a + fieldEnters i b := by
+  simp [fieldEnters, List.filter_append]
+
+theorem fieldEnters_enter (i : Nat) (s : Site) (ls : List Nat) :
+    fieldEnters i (ls.map (fun j => Ev.hook true j s)) = if isFieldSite s then ls.count i else 0 := by
+  cases hs : isFieldSite s
+  · induction ls with
+    | nil => rfl
+    | cons j ls ih =>
+      simp only [fieldEnters, List.map_cons, List.filter_cons, isFieldEnter, hs, Bool.and_false] at ih ⊢
+      simpa using ih
+  · induction ls with
+    | nil => rfl
+    | cons j ls ih =>
+      simp only [fieldEnters, List.map_cons, List.filter_cons, isFieldEnter, hs, Bool.and_true, List.count_cons] at ih ⊢
+      by_cases h : j = i <;> simp_all
+
+theorem fieldEnters_exit (i : Nat) (s : Site) (ls : List Nat) :
+    fieldEnters i (ls.map (fun j => Ev.hook false j s)) = 0 := by
+  induction ls with
+  | nil => rfl
+  | cons j ls ih => simp [fieldEnters, isFieldEnter]
+
+theorem fieldEnters_expand (i : Nat) (ls : List Nat) (t : List Ev) (ht : MarksOnly t) :
+    fieldEnters i (expand ls t) = ls.count i * fieldOpens t := by
+  induction t with
+  | nil => rfl
+  | cons e t ih =>
+    have ht' : MarksOnly t := fun e' he' => ht e' (List.mem_cons_of_mem _ he')
+    obtain ⟨b, s, rfl⟩ := ht e (List.mem_cons_self)
+    rw [expand_cons, fieldEnters_append, ih ht']
+    have hc : fieldOpens (Ev.mark b s :: t) = fieldOpens [Ev.mark b s] + fieldOpens t := fieldOpens_append [_] t
+    rw [hc, Nat.mul_add]
+    congr 1
+    cases b with
+    | true =>
+      show fieldEnters i ([Ev.mark true s] ++ ls.map (fun j => Ev.hook true j s)) = _
+      rw [fieldEnters_append, fieldEnters_enter]
+      cases hs : isFieldSite s <;> simp [fieldEnters, isFieldEnter, fieldOpens, isFieldOpen, hs]
+    | false =>
+      show fieldEnters i (ls.reverse.map (fun j => Ev.hook false j s) ++ [Ev.mark false s]) = _
+      rw [fieldEnters_append, fieldEnters_exit]
+      simp [fieldEnters, isFieldEnter, fieldOpens, isFieldOpen]
+
+/-- the whole extension-free request of the family: stage sites around the executor's sites —
+    well bracketed, and the field sites are exactly the resolver invocations of the response -/
+theorem family_execute_once (D : AGV.Model.ExecStatic.Defects) (X : XDefects) (req : CaseReq) :
+    Bal (execute (caseBase D X) ([] : List (Ext CaseReq Doc Cache Resp Stage)) req).2 ∧
+    fieldOpens (execute (caseBase D X) ([] : List (Ext CaseReq Doc Cache Resp Stage)) req).2 =
+      (execute (caseBase D X) ([] : List (Ext CaseReq Doc Cache Resp Stage)) req).1.res.log.length := by
+  have hx := family_once D X
+  simp only [execute, stages, prepareAt, atSite, runChain, runPrepare, List.map_nil]
+  cases hp : (caseBase D X).parse req with
+  | error e' =>
+    constructor
+    · intro st r; simp [balanced]
+    · simp [fieldOpens, isFieldOpen, isFieldSite, caseBase]
+  | ok doc =>
+    cases hv : (caseBase D X).validate req doc with
+    | error e' =>
+      simp only [hv]
+      constructor
+      · intro st r; simp [balanced]
+      · simp [fieldOpens, isFieldOpen, isFieldSite, caseBase]
+    | ok vr =>
+      cases hs : (caseBase D X).selectOp req doc with
+      | error e' =>
+        simp only [hv, hs]
+        constructor
+        · intro st r; simp [balanced]
+        · simp [fieldOpens, isFieldOpen, isFieldSite, caseBase]
+      | ok op =>
+        obtain ⟨h1, h2⟩ := hx req doc op vr
+        simp only [hv, hs, List.isEmpty_nil, Bool.not_true]
+        constructor
+        · intro st r
+          simp [balanced, h1 _ _]
+        · rw [← h2]
+          simp [fieldOpens, isFieldOpen, isFieldSite, List.filter_append]
+
+/-- BALANCE: whatever stack of recording extensions is installed, the trace of a request of the
+    family is well bracketed: every site (stage, field, list item) closes inside the site that
+    was open when it began. -/
+theorem c30_sites_balanced (D : AGV.Model.ExecStatic.Defects) (X : XDefects) (hX : X.plainPathSkipsLookup = false)
+    (ls : List Nat) (req : CaseReq) :
+    balanced [] (execute (caseBase D X) (stack ls) req).2 = true := by
+  rw [c30_nesting_family D X hX ls req, balanced_expand]
+  exact (family_execute_once D X req).1.balanced
+
+/-- ONE RESOLVE HOOK PER RESOLVER INVOCATION, as an extension sees it: each extension registered
+    once enters exactly as many field sites as the response's log has resolver invocations. -/
+theorem c30_resolve_once_family (D : AGV.Model.ExecStatic.Defects) (X : XDefects) (hX : X.plainPathSkipsLookup = false)
+    (ls : List Nat) (req : CaseReq) (i : Nat) (hi : ls.count i = 1) :
+    fieldEnters i (execute (caseBase D X) (stack ls) req).2 =
+      (execute (caseBase D X) (stack ls) req).1.res.log.length := by
+  rw [c30_nesting_family D X hX ls req, c30_transparent_family D X hX ls req,
+    fieldEnters_expand i ls _ (family_execute_marksOnly D X req), hi, Nat.one_mul]
+  exact (family_execute_once D X req).2
+
+
+/-- `{ a }` with two recording extensions: one field site, one resolver invocation -/
+def okReq : CaseReq :=
+  { S := { types := [{ name := "Query", kind := .object, fields := [{ name := "a", ty := .named "Int", args := [] }] },
+                     { name := "Int", kind := .scalar }], query := "Query" },
+    doc := { ops := [{ ty := .query, name := none, vars := [], dirs := [],
+                       sels := [.field none "a" [] [] [] ⟨1, 3⟩] }], frags := [] },
+    opName := none, vars := [], w := { entries := [] }, parses := true, strictValid := true, fast := false, fuel := 3 }
+
+example : fieldEnters 1 (execute (caseBase {} {}) (stack [0, 1]) okReq).2 = 1 ∧
+    (execute (caseBase {} {}) (stack [0, 1]) okReq).1.res.log.length = 1 := by decide
 
 -- ------------------------------------------------------------------ the defect of the pinned tree
 
